@@ -71,7 +71,10 @@ UserFrame(o) == <<[Frame("value", o) EXCEPT !.ph = "script"]>>
 -----------------------------------------------------------------------------
 (* Monitor *)
 
+\* the process died (child mode): legitimate only as the abort of a clone of a dead handle
+NoCrash == "CRASH" \notin ob.flags
 Holds(p) ==
+  NoCrash /\
   CASE p = "C01" -> C01
     [] p = "C02" -> C02
     [] p = "C03" -> C03
@@ -81,9 +84,9 @@ Holds(p) ==
     [] p = "C08" -> C08
     [] p = "C14" -> C14
     [] p = "C16" -> C16
-    [] p = "C12" -> C12
+    [] p = "C12" -> C12 /\ C01 /\ C03 /\ C05
     [] p = "C10" -> C01 /\ C02 /\ C03 /\ C04 /\ C05 /\ C06
-    [] p = "C11" -> C01 /\ C02 /\ C05 /\ C11x
+    [] p = "C11" -> C01 /\ C02 /\ C05 /\ C06 /\ C08 /\ C11x
     [] p = "C13" -> C13
     [] p = "C13x" -> C13x
     [] OTHER -> TRUE
@@ -113,7 +116,8 @@ MonStep ==
              /\ heap' = Heap0 /\ led' = Led0 /\ ob' = Ob0 /\ ctl' = Ctl0 /\ sn' = ln.script
           [] ln.k = "call" ->
              LET g1 == LC(ln.op, ln.a, ln.b)
-                 x0 == IF ln.depth = 0 THEN NewCall(ln.op, ln.a, ln.b) ELSE ob
+                 x0 == IF ln.depth = 0 THEN NewCall(ln.op, ln.a, ln.b)
+                       ELSE [ob EXCEPT !.call = [op |-> ln.op, a |-> ln.a, b |-> ln.b]]
                  tg == IF ln.op = "DropRoot" THEN ln.a ELSE ln.b
                  x1 == IF ln.op \in DropOps
                        THEN (IF ln.depth = 0 THEN DropObs(x0, g1, tg)
@@ -150,6 +154,17 @@ MonStep ==
              /\ ob' = [ObsInto(ob, ln.obs) EXCEPT !.dlog = Append(@, ln.a)]
              /\ ctl' = [stack |-> UserFrame(ln.a), mode |-> "run"]
              /\ sn' = sn
+          [] ln.k = "died" ->
+             \* the child process was killed by a signal right after the last logged line
+             LET c == ob.call
+                 t == IF c.op = "CloneStored" THEN c.b ELSE c.a
+                 expected == /\ Stack # <<>> /\ Top.pc = "lib"
+                             /\ c.op \in {"CloneRoot", "CloneStored", "IncStrong"}
+                             /\ t \in Obj /\ heap.mem[t] = "alloc" /\ heap.strong[t] \in {0, UNINIT}
+             IN /\ heap' = heap /\ led' = led
+                /\ ob' = [ob EXCEPT !.flags = @ \cup (IF expected THEN {} ELSE {"CRASH"}), !.ret = "abort"]
+                /\ ctl' = [stack |-> LibFrame, mode |-> "aborted"]
+                /\ sn' = sn
           [] ln.k = "abort" ->
              /\ heap' = HeapOf(ln.obs) /\ led' = led
              /\ ob' = [ObsInto(ob, ln.obs) EXCEPT !.flags = @ \cup {"C11"}]
@@ -224,6 +239,8 @@ ConfStep ==
                    /\ ctl.mode = "aborted" /\ ob.ret = "abort"
                 [] ln.k = "abort" ->
                    /\ StepValuePanic /\ ctl'.mode = "aborted"
+                [] ln.k = "died" ->
+                   /\ UNCHANGED vars /\ ctl.mode = "aborted"
                 [] ln.k = "ret" /\ ln.ret # "abort" ->
                    /\ UNCHANGED vars
                    /\ IF ln.depth = 0 THEN Quiescent
